@@ -561,7 +561,24 @@ func TestVerif_C30(t *testing.T) {
 	var done int64
 	var failMu sync.Mutex
 	var fails []c30Fail
-	vx.ParallelFor(len(cases), func(i int) {
+	// Every command run creates its own HTTP transport whose idle keep-alive connections stay open
+	// for 90 s (client and server end live in this process: 4 descriptors per case). The cases are
+	// therefore run in batches, each on a fresh server: closing the server ends the connections.
+	const batch = 600
+	for b0 := 0; b0 < len(cases); b0 += batch {
+		if b0 > 0 {
+			srv.m.Close()
+			os.RemoveAll(srv.dir)
+			if srv, err = c30Start(); err != nil {
+				t.Fatalf("HARNESS-ERROR restarting server: %v", err)
+			}
+		}
+		b1 := b0 + batch
+		if b1 > len(cases) {
+			b1 = len(cases)
+		}
+	vx.ParallelFor(b1-b0, func(bi int) {
+		i := b0 + bi
 		if c.Expired() {
 			return
 		}
@@ -591,6 +608,7 @@ func TestVerif_C30(t *testing.T) {
 			c.Outcome("FAIL " + stage)
 		}
 	})
+	}
 	// Keying: failing cases are grouped by (stage, mode); the cases with the fewest bits come first
 	// and name the key by the key classes they use; a larger failing case whose key classes include
 	// an already reported set is counted under that key (one root cause -> one key).
